@@ -58,13 +58,15 @@ def run(ctx, report):
     report.rule = ("files over every C01 dtype x null pattern, >=2 row groups, hive partitions, with / without pandas metadata, foreign-style "
                    "statistics (null_count absent, statistics absent), x read options (columns, categories, index, pandas_nulls); "
                    "non-trivial = >=1 row and (nulls or >=2 row groups or a non-default option); distinct by (dtype, variant, options)")
-    nfiles = 14 if ctx.quick else 140
+    nfiles = 20 if ctx.quick else 140
     reqs = []
     for fidx in range(nfiles):
         n = rng.choice([4, 9, 20])
         kinds = rng.sample(KINDS, 4)
-        if fidx * 4 < len(KINDS):
-            kinds = KINDS[fidx * 4:(fidx + 1) * 4]
+        nblk = (len(KINDS) + 3) // 4
+        if fidx < 2 * nblk:
+            # directed: every kind once in a file as written, once more under a foreign-style variant, whatever the seed
+            kinds = KINDS[(fidx % nblk) * 4:(fidx % nblk + 1) * 4]
         df = pd.DataFrame({"rid": np.arange(n, dtype="int64")})
         pats = {}
         for j, k in enumerate(kinds):
@@ -80,6 +82,11 @@ def run(ctx, report):
         if with_index:
             df.index = pd.Index(np.arange(50, 50 + n, dtype="int64"), name="ix")
         variant = rng.choice(["asis", "asis", "no-pandas-md", "no-null-count", "no-stats-some", "int-null-as-int"])
+        if fidx < nblk:
+            variant = "asis"
+        elif fidx < 2 * nblk:
+            variant = ["no-pandas-md", "no-null-count", "no-stats-some", "int-null-as-int"][fidx % 4]
+            layout = "simple"
         path = os.path.join(ctx.workdir("c17"), f"f{fidx}")
         shutil.rmtree(path, ignore_errors=True)
         if os.path.isfile(path):
@@ -129,6 +136,8 @@ def run(ctx, report):
             colsel = rng.choice([None, None, "subset"])
             catsel = rng.choice([None, None, "list", "dict"])
             idx = rng.choice([None, None, False])
+            if opt == 0 and fidx < 2 * nblk:
+                pandas_nulls, colsel, catsel, idx = True, None, None, None
             rec = {"check": "predict", **desc, "pandas_nulls": pandas_nulls, "columns": colsel, "categories": catsel, "index": str(idx)}
             ctx.crumb(rec)
             try:
